@@ -1121,77 +1121,127 @@ Section KnnFacts.
         rewrite firstn_skipn. apply sort_sorted; [apply rle_total | apply rle_trans].
     Qed.
 
-    Theorem recent_write_complete : forall (ann : ann_t vec dist) (e e' : engine vec dg) qc q k ef cache r x,
+    (* what the recent-write argument needs from the filtered hot candidates: x's candidate is among them, or
+       they are 2k distinct candidates that are all at least as close as x *)
+    Definition hot_ok (q : vec) (k : N) (x : hentry vec dg) (hot_r : list res) : Prop :=
+      In (cand_of q x) hot_r \/
+      (length hot_r = N.to_nat (k * 2)
+       /\ forall a, In a hot_r -> dle (snd a) (metric q (h_vec x)) = true).
+
+    Lemma in_or_all : forall (A : Type) (P Q : A -> Prop) (l : list A),
+      (forall a, In a l -> P a \/ Q a) -> (forall a, In a l -> P a) \/ (exists a, In a l /\ Q a).
+    Proof.
+      intros A P Q l. induction l as [|a l IH]; intro H; [left; intros a []|].
+      destruct (H a (or_introl eq_refl)) as [Ha|Ha]; [|right; exists a; split; [left; reflexivity | exact Ha]].
+      destruct IH as [I|[b [Hb Qb]]]; [intros; apply H; right; auto| |].
+      - left. intros b [->|Hb]; auto.
+      - right. exists b. split; [right; exact Hb | exact Qb].
+    Qed.
+
+    Lemma merge_pob : forall q k x (hot_r cold_r : list res),
+      (k <> 0)%N -> NoDup (keys hot_r) -> hot_ok q k x hot_r ->
+      present_or_beaten q k x (merge_knn dle order hot_r cold_r (N.to_nat k)).
+    Proof.
+      intros q k x hot_r cold_r Hk HN [Hin|[Hlen Hall]].
+      - pose proof (merge_hot_member hot_r cold_r _ _ HN Hin) as Hm.
+        destruct (merge_complete order order_perm hot_r cold_r (N.to_nat k) _ Hm) as [A|[A B]]; [left; exact A|].
+        right. split; [exact A|]. intros o Ho. apply (B o Ho).
+      - set (out := merge_knn dle order hot_r cold_r (N.to_nat k)).
+        assert (Hea : forall a, In a hot_r ->
+                  In a out \/ (length out = N.to_nat k /\ forall o, In o out -> rle dle o a = true)).
+        { intros [i d] Ha. apply (merge_complete order order_perm). apply merge_hot_member; assumption. }
+        destruct (in_or_all _ _ _ _ Hea) as [Hincl|[a [Ha [A B]]]].
+        + exfalso. assert (HNl : NoDup hot_r) by (eapply NoDup_map_inv; exact HN).
+          pose proof (NoDup_incl_length HNl Hincl) as L1.
+          assert (L2 : (length out <= N.to_nat k)%nat) by apply firstn_le_length.
+          rewrite Hlen, N2Nat.inj_mul in L1. change (N.to_nat 2) with 2%nat in L1.
+          assert (N.to_nat k <> 0%nat) by (intro E; apply Hk; apply N2Nat.inj; exact E). lia.
+        + right. split; [exact A|]. intros o Ho. eapply dle_trans; [apply (B o Ho) | apply Hall, Ha].
+    Qed.
+
+    Lemma resort_pob : forall q k x (hot_r : list res),
+      hot_ok q k x hot_r ->
+      present_or_beaten q k x (firstn (N.to_nat k) (stable_sort (rle dle) hot_r)).
+    Proof.
+      intros q k x hot_r [Hin|[Hlen Hall]].
+      - destruct (resort_complete hot_r (N.to_nat k) _ Hin) as [A|[A B]]; [left; exact A|].
+        right. split; [exact A|]. intros o Ho. apply (B o Ho).
+      - right. split.
+        + rewrite firstn_length, sort_length, Hlen, N2Nat.inj_mul. change (N.to_nat 2) with 2%nat. lia.
+        + intros o Ho. apply Hall. apply In_firstn in Ho. rewrite sort_In in Ho. exact Ho.
+    Qed.
+
+    Lemma resort_of_pob : forall q k x (M : list res), (length M <= N.to_nat k)%nat ->
+      present_or_beaten q k x M ->
+      present_or_beaten q k x (firstn (N.to_nat k) (stable_sort (rle dle) M)).
+    Proof.
+      intros q k x M HML HP.
+      assert (HE : forall o, In o (firstn (N.to_nat k) (stable_sort (rle dle) M)) <-> In o M).
+      { intro o. rewrite firstn_all2 by (rewrite sort_length; exact HML). apply sort_In. }
+      assert (HL : length (firstn (N.to_nat k) (stable_sort (rle dle) M)) = length M).
+      { rewrite firstn_all2 by (rewrite sort_length; exact HML). apply sort_length. }
+      destruct HP as [A|[A B]].
+      - left. apply HE. exact A.
+      - right. split; [rewrite HL; exact A|]. intros o Ho. apply HE in Ho. apply (B o Ho).
+    Qed.
+
+    Lemma hot_ok_not_nil : forall q k x hot_r, (k <> 0)%N -> hot_ok q k x hot_r -> is_nil hot_r = false.
+    Proof.
+      intros q k x hot_r Hk [Hin|[Hlen _]]; destruct hot_r; try reflexivity; [destruct Hin|].
+      cbn [length] in Hlen. rewrite N2Nat.inj_mul in Hlen. change (N.to_nat 2) with 2%nat in Hlen.
+      exfalso. apply Hk. apply N2Nat.inj. change (N.to_nat 0) with 0%nat. lia.
+    Qed.
+
+    (* the hot candidates that survive the canonical filter *)
+    Definition hot_filtered (e : engine vec dg) (q : vec) (k : N) : list res :=
+      fst (filter_hot digest dg_eqb (e_cold e) (e_hot e) (hot_knn dle dfin metric (N.to_nat (k * 2)) q (e_hot e))).
+
+    Lemma recent_core : forall (ann : ann_t vec dist) (e e' : engine vec dg) qc q k ef cache r x,
       hot_wf (e_hot e) ->
       tiered_search dle dfin metric digest dg_eqb order ann e qc q k ef cache = (Ok r, e') ->
       r_path r <> CacheHit ->
-      In x (e_hot e) -> fresh_mirror (e_cold e) x -> dfin (metric q (h_vec x)) = true ->
-      survives_hot_cut q k (e_hot e) x ->
+      hot_ok q k x (hot_filtered e q k) ->
       present_or_beaten q k x (r_results r).
     Proof.
-      intros ann e e' qc q k ef cache r x Hhot H Hpath Hx Hf Hfin Hg. unfold tiered_search in H.
-      pose proof (fresh_in_hot_r (e_cold e) (e_hot e) q k x Hhot Hx Hf Hfin Hg) as Hin.
+      intros ann e e' qc q k ef cache r x Hhot H Hpath Hok. unfold tiered_search in H. unfold hot_filtered in Hok.
       pose proof (hot_knn_keys_nodup (N.to_nat (k * 2)) q (e_hot e) Hhot) as HNk.
       assert (HNr : NoDup (keys (fst (filter_hot digest dg_eqb (e_cold e) (e_hot e)
                                         (hot_knn dle dfin metric (N.to_nat (k * 2)) q (e_hot e)))))).
       { rewrite filter_hot_fst by exact HNk. apply NoDup_fst_filter. exact HNk. }
       destruct qc; try discriminate;
-        (destruct (k =? 0)%N; [discriminate|]); (destruct (10000 <? k)%N; [discriminate|]); try discriminate.
+        (destruct (N.eqb_spec k 0) as [Hk0|Hk0]; [discriminate|]); (destruct (10000 <? k)%N; [discriminate|]); try discriminate.
       destruct (cache_lookup (e_cold e) ef cache) as [f|].
       { inversion H; subst. cbn [r_path] in Hpath. congruence. }
       destruct (filter_hot digest dg_eqb (e_cold e) (e_hot e) (hot_knn dle dfin metric (N.to_nat (k * 2)) q (e_hot e)))
-        as [hot_r hs'] eqn:Efh. cbn [fst] in Hin, HNr. cbn zeta in H.
-      assert (Hfin2 : forall cold_r, present_or_beaten q k x (merge_knn dle order hot_r cold_r (N.to_nat k))).
-      { intro cold_r. pose proof (merge_hot_member hot_r cold_r _ _ HNr Hin) as Hm.
-        destruct (merge_complete order order_perm hot_r cold_r (N.to_nat k) _ Hm) as [A|[A B]]; [left; exact A|].
-        right. split; [exact A|]. intros o Ho. apply (B o Ho). }
+        as [hot_r hs'] eqn:Efh. cbn [fst] in Hok, HNr. cbn zeta in H.
       destruct (negb (live_docs (e_cold e) =? 0)%N).
       - destruct (cold_search ann (e_cold e) QOk q (k * 2)) as [cold_r|er]; [|discriminate].
-        inversion H; subst. cbn [r_results]. apply Hfin2.
-      - inversion H; subst. cbn [r_results]. apply Hfin2.
+        inversion H; subst. cbn [r_results]. apply merge_pob; assumption.
+      - inversion H; subst. cbn [r_results]. apply merge_pob; assumption.
     Qed.
 
-    (* the same for the timed path, for responses that are not produced under degradation *)
-    Theorem recent_write_complete_timed : forall (ann : ann_t vec dist) (e e' : engine vec dg) qc q k ef cache t r x,
+    Lemma recent_core_timed : forall (ann : ann_t vec dist) (e e' : engine vec dg) qc q k ef cache t r x,
       hot_wf (e_hot e) ->
       timed_search dle dfin metric digest dg_eqb order ann e qc q k ef cache t = (Ok r, e') ->
       r_path r <> CacheHit -> r_degraded r = false ->
-      In x (e_hot e) -> fresh_mirror (e_cold e) x -> dfin (metric q (h_vec x)) = true ->
-      survives_hot_cut q k (e_hot e) x ->
+      hot_ok q k x (hot_filtered e q k) ->
       present_or_beaten q k x (r_results r).
     Proof.
-      intros ann e e' qc q k ef cache t r x Hhot H Hpath Hdeg Hx Hf Hfin Hg. unfold timed_search in H.
-      pose proof (fresh_in_hot_r (e_cold e) (e_hot e) q k x Hhot Hx Hf Hfin Hg) as Hin.
+      intros ann e e' qc q k ef cache t r x Hhot H Hpath Hdeg Hok. unfold timed_search in H. unfold hot_filtered in Hok.
       pose proof (hot_knn_keys_nodup (N.to_nat (k * 2)) q (e_hot e) Hhot) as HNk.
       assert (HNr : NoDup (keys (fst (filter_hot digest dg_eqb (e_cold e) (e_hot e)
                                         (hot_knn dle dfin metric (N.to_nat (k * 2)) q (e_hot e)))))).
       { rewrite filter_hot_fst by exact HNk. apply NoDup_fst_filter. exact HNk. }
       destruct qc; try discriminate;
-        (destruct (k =? 0)%N; [discriminate|]); (destruct (10000 <? k)%N; [discriminate|]); try discriminate.
+        (destruct (N.eqb_spec k 0) as [Hk0|Hk0]; [discriminate|]); (destruct (10000 <? k)%N; [discriminate|]); try discriminate.
       2: { destruct (t_query_permit t); discriminate. }
       destruct (t_query_permit t); cbn [negb] in H; [|discriminate].
       destruct (cache_lookup (e_cold e) ef cache) as [f|].
       { inversion H; subst. cbn [r_path] in Hpath. congruence. }
       unfold timed_hot in H.
       destruct (filter_hot digest dg_eqb (e_cold e) (e_hot e) (hot_knn dle dfin metric (N.to_nat (k * 2)) q (e_hot e)))
-        as [hot_r hs'] eqn:Efh. cbn [fst] in Hin, HNr.
-      assert (Hres : forall X, In (cand_of q x) X ->
-                present_or_beaten q k x (firstn (N.to_nat k) (stable_sort (rle dle) X))).
-      { intros X HX. destruct (resort_complete X (N.to_nat k) _ HX) as [A|[A B]]; [left; exact A|].
-        right. split; [exact A|]. intros o Ho. apply (B o Ho). }
-      assert (Hmerge : forall cold_r,
-                present_or_beaten q k x (firstn (N.to_nat k) (stable_sort (rle dle) (merge_knn dle order hot_r cold_r (N.to_nat k))))).
-      { intro cold_r. pose proof (merge_hot_member hot_r cold_r _ _ HNr Hin) as Hm.
-        set (M := merge_knn dle order hot_r cold_r (N.to_nat k)).
-        assert (HML : (length M <= N.to_nat k)%nat) by apply firstn_le_length.
-        assert (HE : forall o, In o (firstn (N.to_nat k) (stable_sort (rle dle) M)) <-> In o M).
-        { intro o. rewrite firstn_all2 by (rewrite sort_length; exact HML). apply sort_In. }
-        assert (HL : length (firstn (N.to_nat k) (stable_sort (rle dle) M)) = length M).
-        { rewrite firstn_all2 by (rewrite sort_length; exact HML). apply sort_length. }
-        destruct (merge_complete order order_perm hot_r cold_r (N.to_nat k) _ Hm) as [A|[A B]].
-        - left. apply HE. exact A.
-        - right. split; [rewrite HL; exact A|]. intros o Ho. apply HE in Ho. apply (B o Ho). }
-      assert (Hnn : is_nil hot_r = false) by (destruct hot_r; [destruct Hin | reflexivity]).
+        as [hot_r hs'] eqn:Efh. cbn [fst] in Hok, HNr.
+      pose proof (hot_ok_not_nil q k x hot_r Hk0 Hok) as Hnn.
       unfold timed_finish in H.
       destruct (t_hot_closed t); [|degr H Hdeg].
       destruct (t_hot_worker t); [|degr H Hdeg].
@@ -1203,13 +1253,227 @@ Section KnnFacts.
         + destruct (t_cold_out t).
           * destruct (cold_search ann (e_cold e) QOk q (k * 2)) as [c|er].
             -- rewrite Hnn in H. cbn [negb andb] in H. inversion H; subst. cbn [r_results].
-               destruct (negb (is_nil c)); [apply Hmerge | apply Hres; exact Hin].
+               destruct (negb (is_nil c)).
+               ++ apply resort_of_pob; [apply firstn_le_length | apply merge_pob; assumption].
+               ++ apply resort_pob; exact Hok.
             -- inversion H; subst. cbn [r_degraded] in Hdeg. discriminate.
           * inversion H; subst. cbn [r_degraded] in Hdeg. discriminate.
           * inversion H; subst. cbn [r_degraded] in Hdeg. discriminate.
-      - inversion H; subst. cbn [r_results]. apply Hres. exact Hin.
+      - inversion H; subst. cbn [r_results]. apply resort_pob; exact Hok.
     Qed.
+
+    (* guarded form: any hot tier (stale mirrors allowed), x survives the top-2k cut *)
+    Theorem recent_write_complete : forall (ann : ann_t vec dist) (e e' : engine vec dg) qc q k ef cache r x,
+      hot_wf (e_hot e) ->
+      tiered_search dle dfin metric digest dg_eqb order ann e qc q k ef cache = (Ok r, e') ->
+      r_path r <> CacheHit ->
+      In x (e_hot e) -> fresh_mirror (e_cold e) x -> dfin (metric q (h_vec x)) = true ->
+      survives_hot_cut q k (e_hot e) x ->
+      present_or_beaten q k x (r_results r).
+    Proof.
+      intros ann e e' qc q k ef cache r x Hhot H Hpath Hx Hf Hfin Hg.
+      eapply recent_core; eauto. left. apply fresh_in_hot_r; assumption.
+    Qed.
+
+    Theorem recent_write_complete_timed : forall (ann : ann_t vec dist) (e e' : engine vec dg) qc q k ef cache t r x,
+      hot_wf (e_hot e) ->
+      timed_search dle dfin metric digest dg_eqb order ann e qc q k ef cache t = (Ok r, e') ->
+      r_path r <> CacheHit -> r_degraded r = false ->
+      In x (e_hot e) -> fresh_mirror (e_cold e) x -> dfin (metric q (h_vec x)) = true ->
+      survives_hot_cut q k (e_hot e) x ->
+      present_or_beaten q k x (r_results r).
+    Proof.
+      intros ann e e' qc q k ef cache t r x Hhot H Hpath Hdeg Hx Hf Hfin Hg.
+      eapply recent_core_timed; eauto. left. apply fresh_in_hot_r; assumption.
+    Qed.
+
+    (* no stale mirror at all: no guard needed *)
+    Definition all_fresh (e : engine vec dg) : Prop := forall y, In y (e_hot e) -> fresh_mirror (e_cold e) y.
+
+    Lemma all_fresh_hot_ok : forall (e : engine vec dg) q k x,
+      hot_wf (e_hot e) -> all_fresh e -> In x (e_hot e) -> dfin (metric q (h_vec x)) = true ->
+      hot_ok q k x (hot_filtered e q k).
+    Proof.
+      intros e q k x HN Hall Hx Hfin. unfold hot_filtered.
+      pose proof (hot_knn_keys_nodup (N.to_nat (k * 2)) q (e_hot e) HN) as HNk.
+      rewrite filter_hot_fst by exact HNk.
+      rewrite filter_all.
+      2:{ intros a Ha. destruct (hot_knn_in _ _ _ _ HN Ha) as [e0 [He0 ->]].
+          unfold keep. cbn [fst]. rewrite hot_find_in by assumption. rewrite (Hall e0 He0). reflexivity. }
+      rewrite hot_heap_is_topk by exact HN. unfold topk_spec.
+      set (n := N.to_nat (k * 2)).
+      set (F := filter (fun c : res => dfin (snd c)) (hot_cands metric q (e_hot e))).
+      set (S := stable_sort (cand_le dle) F).
+      assert (HxS : In (cand_of q x) S).
+      { unfold S. rewrite sort_In. unfold F. apply filter_In. split; [|exact Hfin].
+        unfold hot_cands, cand_of. apply in_map_iff. exists x. auto. }
+      assert (HSS : StronglySorted (R (cand_le dle)) S) by (apply sort_sorted; [apply cle_total | apply cle_trans]).
+      rewrite <- (firstn_skipn n S) in HxS, HSS. apply in_app_or in HxS. destruct HxS as [H|H]; [left; exact H|].
+      right. split.
+      - rewrite firstn_length. destruct (Nat.le_gt_cases n (length S)) as [L|L]; [apply Nat.min_l; exact L|].
+        rewrite skipn_all2 in H by lia. destruct H.
+      - intros a Ha. change (metric q (h_vec x)) with (snd (cand_of q x)). apply cle_dle.
+        eapply (sorted_app_le _ (cand_le dle)); eauto.
+    Qed.
+
+    Theorem recent_write_complete_fresh : forall (ann : ann_t vec dist) (e e' : engine vec dg) qc q k ef cache r x,
+      hot_wf (e_hot e) -> all_fresh e ->
+      tiered_search dle dfin metric digest dg_eqb order ann e qc q k ef cache = (Ok r, e') ->
+      r_path r <> CacheHit ->
+      In x (e_hot e) -> dfin (metric q (h_vec x)) = true ->
+      present_or_beaten q k x (r_results r).
+    Proof. intros. eapply recent_core; eauto. apply all_fresh_hot_ok; assumption. Qed.
+
+    Theorem recent_write_complete_fresh_timed : forall (ann : ann_t vec dist) (e e' : engine vec dg) qc q k ef cache t r x,
+      hot_wf (e_hot e) -> all_fresh e ->
+      timed_search dle dfin metric digest dg_eqb order ann e qc q k ef cache t = (Ok r, e') ->
+      r_path r <> CacheHit -> r_degraded r = false ->
+      In x (e_hot e) -> dfin (metric q (h_vec x)) = true ->
+      present_or_beaten q k x (r_results r).
+    Proof. intros. eapply recent_core_timed; eauto. apply all_fresh_hot_ok; assumption. Qed.
   End Entry.
+
+  (* ================================================================ F'. API histories keep every mirror fresh *)
+  Hypothesis dg_eqb_refl : forall a : dg, dg_eqb a a = true.
+
+  Definition mirrors_ok (e : engine vec dg) : Prop := hot_wf (e_hot e) /\ all_fresh e.
+
+  Lemma cold_slot_tombstone_other : forall (s : cstore vec dg) i j, i <> j ->
+    cold_slot (map (tombstone j) s) i = cold_slot s i.
+  Proof.
+    intros s i j Hne. unfold cold_slot. induction s as [|a s IH]; [reflexivity|].
+    cbn [map find]. destruct (ext_is j a) eqn:Ej.
+    - assert (T : tombstone j a = mk_cslot None (cs_vec a) (cs_ver a) (cs_dg a)) by (unfold tombstone; rewrite Ej; reflexivity).
+      rewrite T. unfold ext_is at 1. cbn [cs_ext].
+      unfold ext_is in Ej. unfold ext_is at 2. destruct (cs_ext a) as [x|]; [|discriminate].
+      apply N.eqb_eq in Ej. subst x. destruct (N.eqb_spec j i); [congruence | exact IH].
+    - assert (T : tombstone j a = a) by (unfold tombstone; rewrite Ej; reflexivity).
+      rewrite T. destruct (ext_is i a); [reflexivity | exact IH].
+  Qed.
+
+  Lemma cold_slot_tombstone_same : forall (s : cstore vec dg) j, cold_slot (map (tombstone j) s) j = None.
+  Proof.
+    intros s j. unfold cold_slot. induction s as [|a s IH]; [reflexivity|].
+    cbn [map find]. destruct (ext_is j a) eqn:Ej.
+    - assert (T : tombstone j a = mk_cslot None (cs_vec a) (cs_ver a) (cs_dg a)) by (unfold tombstone; rewrite Ej; reflexivity).
+      rewrite T. unfold ext_is at 1. cbn [cs_ext]. exact IH.
+    - assert (T : tombstone j a = a) by (unfold tombstone; rewrite Ej; reflexivity).
+      rewrite T, Ej. exact IH.
+  Qed.
+
+  Lemma cold_slot_app1 : forall (s : cstore vec dg) n i,
+    cold_slot (s ++ [n]) i = match cold_slot s i with Some x => Some x | None => if ext_is i n then Some n else None end.
+  Proof.
+    intros s n i. unfold cold_slot. induction s as [|a s IH]; [reflexivity|].
+    cbn [app find]. destruct (ext_is i a); [reflexivity | exact IH].
+  Qed.
+
+  Lemma cold_token_insert_other : forall (s : cstore vec dg) i j v, i <> j ->
+    cold_token (cold_insert digest s j v) i = cold_token s i.
+  Proof.
+    intros s i j v Hne. unfold cold_token, cold_insert. rewrite cold_slot_app1, cold_slot_tombstone_other by exact Hne.
+    destruct (cold_slot s i); [reflexivity|]. unfold ext_is. cbn [cs_ext].
+    destruct (N.eqb_spec j i); [congruence | reflexivity].
+  Qed.
+
+  Lemma cold_token_insert_same : forall (s : cstore vec dg) j v,
+    cold_token (cold_insert digest s j v) j = Some (next_version s j, digest v).
+  Proof.
+    intros s j v. unfold cold_token, cold_insert. rewrite cold_slot_app1, cold_slot_tombstone_same.
+    unfold ext_is. cbn [cs_ext]. rewrite N.eqb_refl. reflexivity.
+  Qed.
+
+  Lemma cold_token_delete_other : forall (s : cstore vec dg) i j, i <> j ->
+    cold_token (cold_delete s j) i = cold_token s i.
+  Proof. intros. unfold cold_token, cold_delete. rewrite cold_slot_tombstone_other by assumption. reflexivity. Qed.
+
+  Lemma cold_slot_compact : forall (s : cstore vec dg) i, cold_slot (filter (@is_live vec dg) s) i = cold_slot s i.
+  Proof.
+    intros s i. unfold cold_slot. induction s as [|a s IH]; [reflexivity|].
+    cbn [filter find]. unfold is_live at 1. unfold ext_is at 2. destruct (cs_ext a) as [x|] eqn:Ea.
+    - cbn [find]. unfold ext_is at 1. rewrite Ea. destruct (x =? i)%N; [reflexivity | exact IH].
+    - exact IH.
+  Qed.
+
+  Lemma fresh_by_token : forall (s s' : cstore vec dg) y,
+    cold_token s' (h_id y) = cold_token s (h_id y) -> fresh_mirror s y -> fresh_mirror s' y.
+  Proof. intros s s' y E. unfold fresh_mirror, canonical_vector_state. rewrite E. auto. Qed.
+
+  Lemma fold_insert_other : forall (docs : list (N * vec * bool)) (s : cstore vec dg) i,
+    ~ In i (map (fun d => fst (fst d)) docs) ->
+    cold_token (fold_left (fun acc d => match d with (id, v, true) => cold_insert digest acc id v | _ => acc end) docs s) i
+    = cold_token s i.
+  Proof.
+    intro docs. induction docs as [|[[id v] b] t IH]; intros s i Hn; [reflexivity|].
+    cbn [fold_left]. cbn [map fst In] in Hn. rewrite IH by (intro; apply Hn; right; assumption).
+    destruct b; [|reflexivity]. apply cold_token_insert_other. intro E. apply Hn. left. congruence.
+  Qed.
+
+  Lemma NoDup_map_filter : forall (A B : Type) (f : A -> B) (p : A -> bool) (l : list A),
+    NoDup (map f l) -> NoDup (map f (filter p l)).
+  Proof.
+    intros A B f p l. induction l as [|a l IH]; intro H; [constructor|].
+    cbn [map] in H. inversion H as [|? ? Hnin HN]; subst. cbn [filter]. destruct (p a); [|auto].
+    cbn [map]. constructor; [|auto]. intro Hin. apply Hnin.
+    apply in_map_iff in Hin. destruct Hin as [x [Hx Hin]]. apply filter_In in Hin. rewrite <- Hx. apply in_map. tauto.
+  Qed.
+
+  Lemma hot_remove_id : forall (hs : hot vec dg) id y, In y (hot_remove hs id) -> In y hs /\ h_id y <> id.
+  Proof.
+    intros hs id y H. unfold hot_remove in H. apply filter_In in H. destruct H as [H1 H2]. split; [exact H1|].
+    apply negb_true_iff, N.eqb_neq in H2. exact H2.
+  Qed.
+
+  Lemma hot_remove_all_id : forall (hs : hot vec dg) ids y, In y (hot_remove_all hs ids) -> In y hs /\ ~ In (h_id y) ids.
+  Proof.
+    intros hs ids y H. unfold hot_remove_all in H. apply filter_In in H. destruct H as [H1 H2]. split; [exact H1|].
+    apply negb_true_iff in H2. intro Hin.
+    assert (existsb (fun i => (h_id y =? i)%N) ids = true); [|congruence].
+    apply existsb_exists. exists (h_id y). split; [exact Hin | apply N.eqb_refl].
+  Qed.
+
+  (* every write operation of the API (and every removal of mirrors) preserves: keys distinct, no mirror stale *)
+  Lemma wstep_mirrors_ok : forall (e : engine vec dg) (o : wop vec), mirrors_ok e -> mirrors_ok (wstep digest e o).
+  Proof.
+    intros e o [HN Hall]. unfold mirrors_ok, hot_wf, all_fresh in *. destruct o as [id v acc|id|docs| | |ids]; cbn [wstep].
+    - destruct acc; [|split; assumption]. cbn [e_hot e_cold]. split.
+      + rewrite map_app. cbn [map h_id].
+        eapply Permutation_NoDup; [apply Permutation_cons_append|].
+        constructor; [|apply NoDup_map_filter; exact HN].
+        intro Hin. apply in_map_iff in Hin. destruct Hin as [y [Hy Hin]].
+        apply hot_remove_id in Hin. destruct Hin as [_ Hne]. congruence.
+      + intros y Hy. apply in_app_or in Hy. destruct Hy as [Hy|[<-|[]]].
+        * apply hot_remove_id in Hy. destruct Hy as [Hy Hne].
+          eapply fresh_by_token; [|apply Hall, Hy]. apply cold_token_insert_other. exact Hne.
+        * unfold fresh_mirror, canonical_vector_state. cbn [h_id h_vec h_ver h_dg].
+          rewrite cold_token_insert_same. unfold tok_eqb. cbn [fst snd].
+          rewrite N.eqb_refl, !dg_eqb_refl. reflexivity.
+    - cbn [e_hot e_cold]. split; [apply NoDup_map_filter; exact HN|].
+      intros y Hy. apply hot_remove_id in Hy. destruct Hy as [Hy Hne].
+      eapply fresh_by_token; [|apply Hall, Hy]. apply cold_token_delete_other. exact Hne.
+    - cbn [e_hot e_cold]. split; [apply NoDup_map_filter; exact HN|].
+      intros y Hy. apply hot_remove_all_id in Hy. destruct Hy as [Hy Hn].
+      eapply fresh_by_token; [|apply Hall, Hy]. apply fold_insert_other. exact Hn.
+    - cbn [e_hot]. split; [constructor | intros y []].
+    - cbn [e_hot e_cold]. split; [exact HN|]. intros y Hy.
+      eapply fresh_by_token; [|apply Hall, Hy]. unfold cold_token. rewrite cold_slot_compact. reflexivity.
+    - cbn [e_hot e_cold]. split; [apply NoDup_map_filter; exact HN|].
+      intros y Hy. apply hot_remove_all_id in Hy. destruct Hy as [Hy _]. apply Hall, Hy.
+  Qed.
+
+  Lemma wrun_mirrors_ok : forall (ops : list (wop vec)) (e : engine vec dg),
+    mirrors_ok e -> mirrors_ok (wrun digest e ops).
+  Proof.
+    unfold wrun. intro ops. induction ops as [|o ops IH]; intros e H; [exact H|].
+    cbn [fold_left]. apply IH. apply wstep_mirrors_ok. exact H.
+  Qed.
+
+  Theorem api_history_mirrors_ok : forall (ops : list (wop vec)) (e0 : engine vec dg),
+    e_hot e0 = [] -> mirrors_ok (wrun digest e0 ops).
+  Proof.
+    intros ops e0 H0. apply wrun_mirrors_ok.
+    unfold mirrors_ok, hot_wf, all_fresh. rewrite H0. split; [constructor | intros y []].
+  Qed.
 End KnnFacts.
 
 (* ================================================================ G. compute_search_k (regenerated from /repo) *)
